@@ -885,7 +885,11 @@ def c14(ctx):
         # brings into the window) and begins before the start
         dict(id=14904, start="1982/05/01", end="1983/12/30", weather={"kind": "file", "name": "champion_climate.txt"},
              soil={"type": "Loam"}, crop={"name": "Maize", "planting": "05/01", "overrides": {}}, irr={"method": 0}, off_season=True,
-             gw={"water_table": "Y", "method": "Variable", "dates": ["1981-11-01", "1982-08-01", "1984-06-01"], "values": [2.0, 1.5, 0.8]},
+             gw={"water_table": "Y", "method": "Variable", "dates": ["1982-05-01", "1982-08-01", "1984-06-01"], "values": [2.0, 1.5, 0.8]},
+             _ext_days=400),
+        dict(id=14905, start="1982/05/01", end="1983/12/30", weather={"kind": "file", "name": "champion_climate.txt"},
+             soil={"type": "SandyLoam"}, crop={"name": "Maize", "planting": "05/01", "overrides": {}}, irr={"method": 0}, off_season=False,
+             gw={"water_table": "Y", "method": "Variable", "dates": ["1981-11-01", "1982-08-01", "1984-06-01"], "values": [1.6, 1.2, 0.9]},
              _ext_days=400),
     ] + scs
     for sc in scs:
